@@ -46,7 +46,10 @@ func (tfg *TaskfileGraph) Visualize(filename string) error {
 }
 
 func (tfg *TaskfileGraph) Merge() (*Taskfile, error) {
-	hashes, err := graph.TopologicalSort(tfg.Graph)
+	// The sort must be stable: the plain topological sort iterates a Go map, so
+	// Taskfiles included at the same level would be merged in a different order
+	// (and override each other's variables differently) on every run.
+	hashes, err := graph.StableTopologicalSort(tfg.Graph, func(a, b string) bool { return a < b })
 	if err != nil {
 		return nil, err
 	}
